@@ -35,6 +35,7 @@ func main() {
 	repo := flag.String("repo", "/repo", "repository root")
 	out := flag.String("out", "", "output directory for rewritten files")
 	l2 := flag.Bool("l2", true, "instrument unsynchronised shared-memory accesses (read-modify-write splitting, access hooks)")
+	readPkgs := flag.String("readpkgs", "pkg/obiiter/,pkg/obiformats/,pkg/obichunk/,pkg/obitools/", "comma separated path fragments: read hooks are inserted only in files whose path contains one of them (stream and command layers; the compute kernels keep write / read-modify-write hooks only)")
 	flag.Parse()
 	pats := flag.Args()
 	if len(pats) == 0 {
@@ -76,6 +77,11 @@ func main() {
 			}
 			r := &rewriter{fset: p.Fset, info: p.TypesInfo, file: f, pkg: p.Types, l2: *l2,
 				relname: strings.TrimPrefix(fn, *repo+"/")}
+			for _, frag := range strings.Split(*readPkgs, ",") {
+				if frag != "" && strings.Contains(r.relname, frag) {
+					r.readHooks = true
+				}
+			}
 			if !r.rewrite() {
 				continue
 			}
@@ -130,6 +136,7 @@ type rewriter struct {
 	file    *ast.File
 	pkg     *types.Package
 	l2      bool
+	readHooks bool
 	relname string
 	changed bool
 	needVs  bool
@@ -142,6 +149,7 @@ type rewriter struct {
 	aliasSpec  map[*ast.TypeSpec]bool
 	goConst    map[*ast.GoStmt][]bool
 	goFunKeep  map[*ast.GoStmt]bool
+	reads      map[ast.Stmt][]ast.Expr
 	rmw        map[ast.Stmt]bool
 	accessPre  map[ast.Stmt][]accessHook
 	tmp        int
@@ -188,6 +196,7 @@ func (r *rewriter) rewrite() bool {
 	r.goConst = map[*ast.GoStmt][]bool{}
 	r.goFunKeep = map[*ast.GoStmt]bool{}
 	r.rmw = map[ast.Stmt]bool{}
+	r.reads = map[ast.Stmt][]ast.Expr{}
 	r.accessPre = map[ast.Stmt][]accessHook{}
 
 	// imports
@@ -235,6 +244,27 @@ func (r *rewriter) rewrite() bool {
 			}
 			if r.l2 {
 				r.planL2Assign(n)
+				r.planReads(n, n.Rhs...)
+			}
+		case *ast.ExprStmt:
+			if r.l2 {
+				r.planReads(n, n.X)
+			}
+		case *ast.ReturnStmt:
+			if r.l2 {
+				r.planReads(n, n.Results...)
+			}
+		case *ast.IfStmt:
+			if r.l2 && n.Init == nil {
+				r.planReads(n, n.Cond)
+			}
+		case *ast.SwitchStmt:
+			if r.l2 && n.Init == nil && n.Tag != nil {
+				r.planReads(n, n.Tag)
+			}
+		case *ast.SendStmt:
+			if r.l2 {
+				r.planReads(n, n.Value)
 			}
 		case *ast.IncDecStmt:
 			if r.l2 {
@@ -289,7 +319,17 @@ func (r *rewriter) rewrite() bool {
 			}
 		case *ast.SendStmt:
 			r.mark()
-			c.Replace(&ast.ExprStmt{X: &ast.CallExpr{Fun: &ast.SelectorExpr{X: paren(n.Chan), Sel: ast.NewIdent("Send")}, Args: []ast.Expr{n.Value}}})
+			var st ast.Stmt = &ast.ExprStmt{X: &ast.CallExpr{Fun: &ast.SelectorExpr{X: paren(n.Chan), Sel: ast.NewIdent("Send")}, Args: []ast.Expr{n.Value}}}
+			if reads := r.reads[n]; len(reads) > 0 && c.Index() >= 0 {
+				st = r.withReadHooks(n, st, reads)
+			}
+			c.Replace(st)
+		case *ast.ExprStmt, *ast.ReturnStmt, *ast.IfStmt, *ast.SwitchStmt:
+			if reads := r.reads[n.(ast.Stmt)]; len(reads) > 0 && c.Index() >= 0 {
+				if _, isLabeled := c.Parent().(*ast.LabeledStmt); !isLabeled {
+					c.Replace(r.withReadHooks(n, n.(ast.Stmt), reads))
+				}
+			}
 		case *ast.UnaryExpr:
 			if n.Op == token.ARROW {
 				r.mark()
@@ -330,7 +370,16 @@ func (r *rewriter) rewrite() bool {
 			if r.rmw[n] {
 				c.Replace(r.splitAssign(n))
 			} else if hooks := r.accessPre[n]; len(hooks) > 0 {
-				c.Replace(r.withHooks(n, hooks))
+				var st ast.Stmt = r.withHooks(n, hooks)
+				if reads := r.reads[n]; len(reads) > 0 {
+					st = r.withReadHooks(n, st, reads)
+				}
+				c.Replace(st)
+			} else if reads := r.reads[n]; len(reads) > 0 && n.Tok != token.DEFINE {
+				c.Replace(r.withReadHooks(n, n, reads))
+			} else if len(reads) > 0 {
+				// x := expr declares: hooks go before, in the enclosing list (a block would hide the declaration)
+				c.InsertBefore(r.readHookStmt(n, reads))
 			}
 		}
 		return true
@@ -515,6 +564,110 @@ func (r *rewriter) addressable(e ast.Expr) bool {
 		}
 	}
 	return true
+}
+
+// planReads records the non-local locations a statement reads (fields through a pointer, package
+// variables, captured variables): they get a read hook before the statement, so that a read racing with
+// another thread's write becomes a scheduling point too. Function literals are not entered.
+func (r *rewriter) planReads(st ast.Stmt, exprs ...ast.Expr) {
+	if !r.readHooks {
+		return
+	}
+	seen := map[string]bool{}
+	var list []ast.Expr
+	var walk func(n ast.Node) bool
+	walk = func(n ast.Node) bool {
+		switch e := n.(type) {
+		case *ast.FuncLit:
+			return false
+		case *ast.CallExpr:
+			// the callee expression is not a read of a location (method values, function names)
+			if sel, ok := e.Fun.(*ast.SelectorExpr); ok {
+				ast.Inspect(sel.X, walk)
+			}
+			for _, a := range e.Args {
+				ast.Inspect(a, walk)
+			}
+			return false
+		case *ast.UnaryExpr:
+			if e.Op == token.AND {
+				return false // taking an address is not a read
+			}
+		case *ast.SelectorExpr, *ast.Ident:
+			ex := e.(ast.Expr)
+			if tv, ok := r.info.Types[ex]; ok && tv.IsValue() && tv.Addressable() && r.readWorthy(ex) && r.pure(ex) {
+				var b bytes.Buffer
+				printer.Fprint(&b, r.fset, ex)
+				if !seen[b.String()] && len(list) < 6 {
+					seen[b.String()] = true
+					list = append(list, ex)
+				}
+				return false
+			}
+		}
+		return true
+	}
+	for _, e := range exprs {
+		if e != nil {
+			ast.Inspect(e, walk)
+		}
+	}
+	if len(list) > 0 {
+		r.reads[st] = list
+	}
+}
+
+// readWorthy: package-level variables, variables captured by a function literal, fields selected
+// through a pointer. Values of function, channel and shim types are not tracked.
+func (r *rewriter) readWorthy(e ast.Expr) bool {
+	t := r.info.TypeOf(e)
+	if t == nil {
+		return false
+	}
+	switch u := t.Underlying().(type) {
+	case *types.Signature, *types.Chan:
+		return false
+	case *types.Struct:
+		_ = u
+		if strings.Contains(t.String(), "sync.") {
+			return false
+		}
+	}
+	if strings.Contains(t.String(), "sync.") || strings.Contains(t.String(), "abool.") {
+		return false
+	}
+	switch x := e.(type) {
+	case *ast.Ident:
+		return r.nonLocal(x)
+	case *ast.SelectorExpr:
+		sel, ok := r.info.Selections[x]
+		if !ok {
+			return r.nonLocal(x)
+		}
+		if sel.Kind() != types.FieldVal {
+			return false
+		}
+		return r.nonLocal(x)
+	}
+	return false
+}
+
+func (r *rewriter) readHookStmt(n ast.Node, reads []ast.Expr) ast.Stmt {
+	var l []ast.Stmt
+	for _, e := range reads {
+		r.mark()
+		fn := &ast.FuncLit{Type: &ast.FuncType{Params: &ast.FieldList{}, Results: &ast.FieldList{List: []*ast.Field{{Type: ast.NewIdent("uintptr")}}}},
+			Body: &ast.BlockStmt{List: []ast.Stmt{&ast.ReturnStmt{Results: []ast.Expr{&ast.CallExpr{Fun: r.vs("Addr"), Args: []ast.Expr{&ast.UnaryExpr{Op: token.AND, X: e}}}}}}}}
+		l = append(l, &ast.ExprStmt{X: &ast.CallExpr{Fun: r.vs("SafeRead"), Args: []ast.Expr{r.site(n), fn}}})
+	}
+	if len(l) == 1 {
+		return l[0]
+	}
+	return &ast.BlockStmt{List: l}
+}
+
+func (r *rewriter) withReadHooks(n ast.Node, st ast.Stmt, reads []ast.Expr) ast.Stmt {
+	return &ast.BlockStmt{List: []ast.Stmt{r.readHookStmt(n, reads), st}}
 }
 
 func (r *rewriter) planL2IncDec(n *ast.IncDecStmt) {
